@@ -146,6 +146,7 @@ type c08CrashSpec struct {
 	// --- PRNG
 	Debris    string       `json:"debris,omitempty"`
 	LinkProbe bool         `json:"link_probe,omitempty"`
+	M0Extends bool         `json:"linked_manifest_extends_blob,omitempty"`
 	Attempts  []c08Attempt `json:"attempts,omitempty"`
 }
 
@@ -249,6 +250,12 @@ func c08RunCrash(cs c08CrashSpec, seed uint64, sub int, r *kit.Rand, dir string)
 	blob := c08NewBlob("x", c08Content(seed, sub, n, first))
 	// a stable link whose fate is observed when Link is tried on the debris
 	m0 := c08NewBlob("m0", c08Content(seed, sub+1<<20, kit.Pick(r, []int{n, n + 3, 20}), first+1))
+	// In a third of the cases, and always when the writer dies one byte short, the manifest linked before is
+	// the blob's content plus trailing bytes: anything that compares only a prefix is then fooled by the debris.
+	nearlyDone := cs.Op == "put" && cs.B == n-1 && n >= 2
+	if cs.M0Extends = nearlyDone || r.Chance(1, 3); cs.M0Extends {
+		m0 = c08NewBlob("m0", append(append([]byte(nil), blob.data...), kit.NewRand(seed, "C08-m0", sub).Bytes(r.Range(1, 9))...))
+	}
 	const name0 = "h/n/m:t"
 	if err := PutBytes(c, m0.d, m0.data); err != nil {
 		out.Inconclusive = "harness: setup Put: " + err.Error()
@@ -365,7 +372,7 @@ func c08RunCrash(cs c08CrashSpec, seed uint64, sub int, r *kit.Rand, dir string)
 		out.violate("import-left-partial-blob:crash", fmt.Sprintf("a crashed Import left a blob file of %d bytes (want none or all %d)", o.FileSize, n), o)
 		return
 	}
-	if !o.Full && r.Chance(1, 3) {
+	if !o.Full && (r.Chance(1, 3) || nearlyDone) {
 		// linking to the debris must fail and must not disturb the name
 		cs.LinkProbe = true
 		leftover := c08Leftover(c, blob)
